@@ -111,6 +111,23 @@ KnownDStarStop(fsub) ==
     /\ lastPos' = FALSE /\ dev' = dev + 1
     /\ UNCHANGED <<X, K, par, st, expl, depthOf, leafNode, tree, gains, ph>>
 
+(* Named deviation (known finding C08-realloc-second-best): with four or more clusters the bookkeeping of the second-best     *)
+(* target of the right child is wrong, so a reallocation can be undervalued.  The step taken is an admissible candidate with    *)
+(* its exact gain, and every candidate that beats it is a reallocation.  Counted in thousands in `dev`.                       *)
+KnownReallocSplit(fsub, c) ==
+    /\ ph = "loop" /\ LoopCond /\ fsub \in FeatureSubsets
+    /\ st.nC >= 4 /\ c \in CandsNow(fsub) /\ G(c) > 0 /\ ~IsBest(fsub, c)
+    /\ \A e \in CandsNow(fsub) : G(e) > G(c) => e.kind = "realloc"
+    /\ DoSplit(c, G(c))
+    /\ dev' = dev + 1000
+    /\ UNCHANGED <<X, K, par, ph>>
+KnownReallocStop(fsub) ==
+    /\ ph = "loop" /\ LoopCond /\ fsub \in FeatureSubsets
+    /\ st.nC >= 4 /\ \E e \in CandsNow(fsub) : G(e) > 0
+    /\ \A e \in CandsNow(fsub) : G(e) > 0 => e.kind = "realloc"
+    /\ lastPos' = FALSE /\ dev' = dev + 1000
+    /\ UNCHANGED <<X, K, par, st, expl, depthOf, leafNode, tree, gains, ph>>
+
 --------------------------------------------------------------------------------------------------------------
 (* routing a point through the node table: `<=` goes left *)
 RECURSIVE RouteFrom(_, _)
